@@ -32,6 +32,14 @@ def check(ctx):
     ctx.floor("T2-lossless", 250)
     merge_and_split(ctx, repo)
     warn(ctx, repo)
+    # a supplied column is used positionally, like every other column
+    from ._wholecol import label_alignment
+
+    ctx.rule("W4", "no label-aligning pandas operation on the data/result path of the interface: a supplied column is matched to persons by position, as computed columns are")
+    fs = list(label_alignment(repo.module("interface.py")))
+    ctx.ob("W4", ok=not fs, distinct="interface", n=4)
+    for rid, key, ln, msg in fs:
+        ctx.violation(rid, key, f"src/_gettsim/interface.py:{ln}", msg)
 
 
 def annotations(ctx, s):
@@ -88,9 +96,23 @@ def merge_and_split(ctx, repo):
     fl = repo.module("functions_loader.py")
     fn = find_function(fl, "load_and_check_functions", "primary anchor")
     merged = [n for n in walk_own(fn) if isinstance(n, ast.Dict) and n.keys and all(k is None for k in n.keys) and len(n.values) >= 4]
-    if len(merged) != 1:
-        raise AnalysisError("load_and_check_functions: the merge display of all functions not recognised (also a model-drift for the static DAG)")
-    ops = [ast.unparse(v) for v in merged[0].values]
+    ops = None
+    if len(merged) == 1:
+        ops = [ast.unparse(v) for v in merged[0].values]
+    else:
+        # a | b | c | d | e
+        def flat(e):
+            if isinstance(e, ast.BinOp) and isinstance(e.op, ast.BitOr):
+                return flat(e.left) + flat(e.right)
+            return [e]
+
+        chains = [flat(n.value) for n in walk_own(fn) if isinstance(n, ast.Assign) and isinstance(n.value, ast.BinOp) and isinstance(n.value.op, ast.BitOr)]
+        chains = [c for c in chains if len(c) >= 4 and all(isinstance(x, ast.Name) for x in c)]
+        if len(chains) == 1:
+            ops = [x.id for x in chains[0]]
+            merged = [next(n for n in walk_own(fn) if isinstance(n, ast.Assign) and isinstance(n.value, ast.BinOp) and flat(n.value) == chains[0])]
+    if ops is None:
+        raise AnalysisError("load_and_check_functions: the merge of all functions (dict display or | chain) not recognised (also a model-drift for the static DAG)")
     # classify operands by how they were produced
     roles = {}
     for n in walk_own(fn):
@@ -119,23 +141,43 @@ def merge_and_split(ctx, repo):
     if not ok:
         ctx.violation("M", "merge-order|" + "<".join(order), fl.loc(merged[0]), f"functions are merged in the order {order} (later wins); documented/modelled order is {want}: e.g. a derived time-unit node could replace a real rule of the same name, or a data column of another unit silently replace a rule")
     # split by data_cols: (not overridden, overridden) returned; each populated exactly by `name (not) in data_cols`
-    from staticlib.guards import Dominance, atoms_and_eval
+    from staticlib.guards import Dominance, atoms_and_eval, scope_functions
 
-    dom = Dominance(fn)
-    rets = [n for n in walk_own(fn) if isinstance(n, ast.Return) and isinstance(n.value, ast.Tuple) and len(n.value.elts) == 2 and all(isinstance(e, ast.Name) for e in n.value.elts)]
-    if len(rets) != 1:
-        raise AnalysisError("load_and_check_functions no longer returns the pair (not overridden, overridden)")
-    not_ov, ov = [e.id for e in rets[0].value.elts]
+    def pair_return(f):
+        r = [n for n in walk_own(f) if isinstance(n, ast.Return) and isinstance(n.value, ast.Tuple) and len(n.value.elts) == 2 and all(isinstance(e, ast.Name) for e in n.value.elts)]
+        return r[0] if len(r) == 1 else None
+
+    splitter, container = None, "data_cols"
+    ret = pair_return(fn)
+    if ret is not None and any(isinstance(n, ast.Compare) and any(isinstance(o, (ast.In, ast.NotIn)) for o in n.ops) and ast.unparse(n.comparators[0]) == "data_cols" for n in ast.walk(fn)):
+        splitter = fn
+    else:
+        # the pair comes from a helper: `return helper(all_functions, data_cols)`
+        for f_ in scope_functions(fl, fn):
+            if f_ is fn or pair_return(f_) is None:
+                continue
+            calls = [n for n in ast.walk(fn) if isinstance(n, ast.Call) and isinstance(n.func, ast.Name) and n.func.id == f_.name]
+            if len(calls) == 1:
+                hp = [a.arg for a in f_.args.args]
+                bound = dict(zip(hp, [ast.unparse(a) for a in calls[0].args]))
+                bound.update({kw.arg: ast.unparse(kw.value) for kw in calls[0].keywords})
+                inv = [p_ for p_, v in bound.items() if v == "data_cols"]
+                if len(inv) == 1:
+                    splitter, container, ret = f_, inv[0], pair_return(f_)
+    if splitter is None:
+        raise AnalysisError("load_and_check_functions: the split into (not overridden, overridden) is not recognised; M needs a re-read")
+    dom = Dominance(splitter)
+    not_ov, ov = [e.id for e in ret.value.elts]
 
     def member_atom(node):
-        if isinstance(node, ast.Compare) and len(node.ops) == 1 and isinstance(node.ops[0], ast.In) and ast.unparse(node.comparators[0]) == "data_cols":
+        if isinstance(node, ast.Compare) and len(node.ops) == 1 and isinstance(node.ops[0], ast.In) and ast.unparse(node.comparators[0]) in (container, "data_cols"):
             return "IN_DATA"
         return None
 
     def population(var):
         """list of condition lists under which an entry is put into `var`"""
         out = []
-        for n in walk_own(fn):
+        for n in walk_own(splitter):
             if isinstance(n, ast.Assign) and isinstance(n.targets[0], ast.Name) and n.targets[0].id == var and isinstance(n.value, ast.DictComp):
                 out.append([(c, True) for g_ in n.value.generators for c in g_.ifs])
             if isinstance(n, ast.Assign) and isinstance(n.targets[0], ast.Subscript) and isinstance(n.targets[0].value, ast.Name) and n.targets[0].value.id == var:
@@ -160,7 +202,7 @@ def merge_and_split(ctx, repo):
                     detail = f"`{var}` receives a function whose name is {'in' if v else 'not in'} data_cols"
     ctx.ob("M", ok=oksplit, distinct="split")
     if not oksplit:
-        ctx.violation("M", "split", fl.loc(fn), "the split into overridden / not overridden functions is no longer exactly `name in data_cols`: " + detail)
+        ctx.violation("M", "split", fl.loc(splitter), "the split into overridden / not overridden functions is no longer exactly `name in data_cols`: " + detail)
     # derived time-unit nodes are never created for names present in the data
     tc = repo.module("time_conversion.py")
     ct = find_function(tc, "create_time_conversion_functions", "primary anchor")
@@ -198,30 +240,60 @@ def merge_and_split(ctx, repo):
 
 
 def warn(ctx, repo):
-    ctx.rule("F-warn", "in compute_taxes_and_transfers, a non-empty set of overriding columns reaches warnings.warn(FunctionsAndColumnsOverlapWarning(...)) before the result is returned")
+    ctx.rule("F-warn", "in compute_taxes_and_transfers (or a helper it calls unconditionally) a non-empty set of overriding columns always reaches warnings.warn(FunctionsAndColumnsOverlapWarning(...)), under no other condition")
+    from staticlib.guards import Dominance, eval_sized, scope_functions
+
     itf = repo.module("interface.py")
     cte = find_function(itf, "compute_taxes_and_transfers", "primary anchor")
     derived = {"functions_overridden"}
-    for n in walk_own(cte):
-        if isinstance(n, ast.Assign) and isinstance(n.targets[0], ast.Name) and any(isinstance(x, ast.Name) and x.id in derived for x in ast.walk(n.value)):
-            derived.add(n.targets[0].id)
-        if isinstance(n, ast.Assign) and isinstance(n.targets[0], ast.Tuple) and "load_and_check_functions" in ast.unparse(n.value):
-            pass
-    ok = False
-    for st in cte.body:
-        if isinstance(st, ast.If) and not st.orelse and isinstance(st.test, ast.Name) and st.test.id in derived:
-            for x in ast.walk(st):
-                if isinstance(x, ast.Call) and ast.unparse(x.func) == "warnings.warn" and x.args and "FunctionsAndColumnsOverlapWarning" in ast.unparse(x.args[0]) and any(isinstance(y, ast.Name) and y.id in derived for y in ast.walk(x.args[0])):
-                    ok = True
-        if isinstance(st, ast.If) and isinstance(st.test, ast.Compare) and any(isinstance(y, ast.Name) and y.id in derived for y in ast.walk(st.test)):
-            t = ast.unparse(st.test)
-            if t.startswith("len(") and t.endswith("> 0") or t.endswith("!= 0") or t.endswith(">= 1"):
-                for x in ast.walk(st):
-                    if isinstance(x, ast.Call) and ast.unparse(x.func) == "warnings.warn" and "FunctionsAndColumnsOverlapWarning" in ast.unparse(x):
-                        ok = True
-    ctx.ob("F-warn", ok=ok, distinct="warn")
-    if not ok:
-        ctx.violation("F-warn", "override-not-announced", itf.loc(cte), "no unconditional-on-overlap `warnings.warn(FunctionsAndColumnsOverlapWarning(...))` guarded exactly by the set of overriding columns: an override can go unannounced")
+    for _ in range(3):
+        for n in walk_own(cte):
+            if isinstance(n, ast.Assign) and isinstance(n.targets[0], ast.Name) and any(isinstance(x, ast.Name) and x.id in derived for x in ast.walk(n.value)):
+                derived.add(n.targets[0].id)
+    domc = Dominance(cte)
+
+    def site_ok(f, call, names, dom):
+        """the warn call in f is reached whenever the containers in `names` have one element, and depends on nothing else"""
+        for t, pol in dom.of(call):
+            mentions = {x.id for x in ast.walk(t) if isinstance(x, ast.Name)} & names
+            if not mentions:
+                return False, f"it also depends on `{ast.unparse(t)[:50]}`"
+            h = eval_sized(t, {nm: 1 for nm in names})
+            if h is None:
+                return False, f"its guard `{ast.unparse(t)[:50]}` is not a test on the overriding columns only"
+            if h != pol:
+                return False, f"its guard `{ast.unparse(t)[:50]}` is false for one overriding column"
+        return True, ""
+
+    found, why = False, "no warnings.warn(FunctionsAndColumnsOverlapWarning(...)) found"
+    for f_ in scope_functions(itf, cte):
+        for n in ast.walk(f_):
+            if isinstance(n, ast.Call) and ast.unparse(n.func) == "warnings.warn" and n.args and "FunctionsAndColumnsOverlapWarning" in ast.unparse(n.args[0]):
+                if f_ is cte:
+                    ok, why = site_ok(cte, n, derived, domc)
+                    found = found or ok
+                else:
+                    calls = [c for c in ast.walk(cte) if isinstance(c, ast.Call) and isinstance(c.func, ast.Name) and c.func.id == f_.name]
+                    hp = [a.arg for a in f_.args.args]
+                    for c in calls:
+                        bound = dict(zip(hp, c.args))
+                        bound.update({kw.arg: kw.value for kw in c.keywords})
+                        hnames = {p_ for p_, v in bound.items() if any(isinstance(x, ast.Name) and x.id in derived for x in ast.walk(v))}
+                        # locals of the helper derived from those params
+                        for _ in range(2):
+                            for m in walk_own(f_):
+                                if isinstance(m, ast.Assign) and isinstance(m.targets[0], ast.Name) and any(isinstance(x, ast.Name) and x.id in hnames for x in ast.walk(m.value)):
+                                    hnames.add(m.targets[0].id)
+                        ok1, why1 = site_ok(f_, n, hnames, Dominance(f_))
+                        outer = [t for t, pol in domc.of(c)]
+                        ok2 = not outer
+                        if ok1 and ok2 and hnames:
+                            found = True
+                        else:
+                            why = why1 or (f"the helper is called only under `{ast.unparse(outer[0])[:50]}`" if outer else "the helper does not receive the overriding columns")
+    ctx.ob("F-warn", ok=found, distinct="warn")
+    if not found:
+        ctx.violation("F-warn", "override-not-announced", itf.loc(cte), "a data column overriding a function is not always announced: " + why)
     # the warning class is a Warning subclass and not filtered in the module
     cls = [n for n in itf.tree.body if isinstance(n, ast.ClassDef) and n.name == "FunctionsAndColumnsOverlapWarning"]
     ok = bool(cls) and any("Warning" in ast.unparse(b) for b in cls[0].bases)
